@@ -7,6 +7,7 @@ R-C22.2  GuppyStructObject.__setattr__ stores a field only when not frozen (rais
          trace_function freezes exactly the non-borrowed inputs.
 R-C22.3  GuppyObject._use_wire raises iff already used and not copyable, records the use
          otherwise; nobody else reads `_wire` or resets `_used`.
+R-C22.5  the leak registry refers to its entries strongly (c22_registry.py).
 R-C22.4  objects of non-droppable type are registered on creation, and trace_function raises
          when some are left before it sets the outputs.
 """
@@ -337,3 +338,8 @@ def run(ctx: Ctx) -> None:
         dom = gtf.dominated_by(n, lambda m: m.kind == "test" and m.ast is not None and "unused_undroppable_objs" in ast.unparse(m.ast))
         ctx.check(dom, "R-C22.4", f"{tf.qualname}#leak-check-before-set_outputs[{i}]", f"{tf.module.rel}:{n.ast.lineno}",
                   {"dominated": dom}, "outputs of a comptime function are set on a path that skipped the leak check")
+
+    # ------------------------------------------------------------ R-C22.5 leak registry holds strong references
+    from . import c22_registry
+    c22_registry.run(ctx)
+
